@@ -211,6 +211,9 @@ func c11Run(j vs.Job) *vs.JobResult {
 			if hook == "fileRead" || hook == "archiveRead" {
 				add(func(wp *wParams) { wp.Local = &wLocalFault{side, hook, k, "shrink"} })
 			}
+			if hook == "fileWrite" || hook == "archiveWrite" {
+				add(func(wp *wParams) { wp.Local = &wLocalFault{side, hook, k, "slowerr"} })
+			}
 		}
 	}
 	r.Max("messages_c2s", float64(nC2S))
@@ -274,7 +277,7 @@ func init() {
 	vs.Register(&vs.Check{
 		ID:    "C11",
 		Level: "fault_enumeration",
-		Rule: "per configuration: connection silence / write error from every message index on in either direction (after the handshake began) and in both at once; every k-th call of every local I/O seam (destination write, source read, archive read/write) failing; " +
+		Rule: "per configuration: connection silence / write error from every message index on in either direction (after the handshake began) and in both at once; every k-th call of every local I/O seam (destination write, source read, archive read/write) failing, every write also failing after having taken a second; " +
 			"the source shrinking on disk before every k-th read; silence after a pause/continue cycle (every 2nd message index); one message 2.3 s late at every index; thorough: every schedule with <=1 deviation (preemption, select alternative, timer landing first) on top of each fault",
 		Assumptions: []string{"timeout > 0 (3 s virtual); a timeout <= 0 asks for no bound and nothing is asserted", "the bound asserted is 2*timeout + 3 s; the maximum observed is reported",
 			"pumps that live as long as the connection by design are excluded from the leak oracle by spawn site"},
